@@ -564,7 +564,8 @@ func stubList(sp *spec) []string {
 	out := []string{
 		"empty bodies: k8s.io/klog/v2.*, utilruntime.HandleError, utilruntime.HandleCrash (no recover), sync.Mutex/RWMutex/WaitGroup, time.Sleep",
 		"native on concrete operands: fmt.Sprintf/Sprint/Errorf, strings.*, strconv.*, regexp.*, unicode.*, rand.SafeEncodeString",
-		"engine implementations: errors.Is/As, reflect.DeepEqual, Semantic.DeepEqual, sort.Slice, sync.Once, sync/atomic, bytes.Equal, json.Marshal of small structs, json (un)marshal of []int32 (lossless pair for symbolic lists; real decoder for concrete strings)",
+		"engine implementations: errors.Is/As, reflect.DeepEqual, Semantic.DeepEqual, sort.Slice, sync.Once, sync/atomic, bytes.Equal, json.Marshal of small structs, json (un)marshal of the delete-slots list (lossless pair for symbolic lists, decoding into any integer slice type with the decoder's type errors; real decoder for concrete strings), json.Marshal/Unmarshal of API objects as a structural model over go/types (names from tags, case-insensitive fallback, flattened embedded structs, omitempty, null, unknown fields dropped; types with their own MarshalJSON copied)",
+		"solver answers: every model is re-evaluated against the path condition by the engine; unknown / error / inconsistent answers restart the solver and re-run the path once",
 		"time.Now fixed instant, time.Since 0, wait.Jitter identity",
 	}
 	var ks []string
